@@ -196,6 +196,13 @@ ends, processing instructions (target, pseudo-attributes), DOCTYPE, and the char
 (references decoded, CDATA sections opened, comments gone). -/
 def infoset (ts : List XTok) : List Ev := ts.flatMap evTok
 
+/-- the non-character items of an infoset, in document order: element starts and ends, attributes with their
+normalised values, processing instructions, DOCTYPE -/
+def marks : List Ev → List Mark
+  | [] => []
+  | .mark m :: r => m :: marks r
+  | .ch _ :: r => marks r
+
 /-! ## equivalence up to insignificant white space -/
 
 def isWsD : DCh → Bool
@@ -286,6 +293,14 @@ def lexShape : Bool → List XTok → Bool
   | tg, .startTagClose :: r => tg && lexShape false r
   | tg, .startTagCloseVoid :: r => tg && lexShape false r
   | _, _ :: r => lexShape false r
+
+/-- emitted tokens: text is character data according to the grammar (no `<`, `&` only in references),
+attribute values are quoted literals without `<`, bare `&` or their own quote character -/
+def WfOutP : XTok → Prop
+  | .text d => WfText d
+  | .attr _ v => WfAttrVal v
+  | .cdata _ t => WfCDataText t
+  | _ => True
 
 /-! ## triggers of the known findings (narrow syntactic predicates on the input tokens) -/
 
